@@ -77,12 +77,14 @@ def run(ctx, F):
         if b is None:
             ctx.anchor_lost(key, "Drop impl not found")
             continue
-        ins = [(bi, t) for bi, t in b.calls() if re.search(r"Vec<T, A>>::insert$", mir.callee_name(t) or "")]
-        good = [1 for bi, t in ins if len(t["args"]) == 3 and repr(S.operand(b, t["args"][1])) in ("('const', '0')", "('const', 0)")]
+        # the drop body and the private methods of the same destination it is split into
+        fam = [b] + [prog.bodies[mir.callee_name(t)] for _, t in b.calls() if (mir.callee_name(t) or "").startswith(f"<output::cssdest::{built}<") and mir.callee_name(t) in prog.bodies]
+        ins = [(bb, bi, t) for bb in fam for bi, t in bb.calls() if re.search(r"Vec<T, A>>::insert$", mir.callee_name(t) or "")]
+        good = [1 for bb, bi, t in ins if len(t["args"]) == 3 and repr(S.operand(bb, t["args"][1])) in ("('const', '0')", "('const', 0)")]
         if len(ins) == 1 and good:
             ctx.ok("F4-rule-first", key, None)
         else:
-            ctx.fail("F4-rule-first", key, f"{built}::drop inserts the selector-carrying rule with {[sym.show(S.operand(b, t['args'][1])) for bi, t in ins]} (expected one `insert(0, ..)`): the declarations of the enclosing rule would not come first inside the at-rule", where=b.where())
+            ctx.fail("F4-rule-first", key, f"{built}::drop inserts the selector-carrying rule with {[sym.show(S.operand(bb, t['args'][1])) for bb, bi, t in ins]} (expected one `insert(0, ..)`): the declarations of the enclosing rule would not come first inside the at-rule", where=b.where())
     # ---------------------------------------------------------------- (ii) keyframes exception
     b = prog.bodies.get("<output::cssdest::RuleDest<'_> as output::cssdest::CssDestination>::start_atrule")
     if b is not None:
